@@ -22,6 +22,7 @@ package resolver
 
 import (
 	"fmt"
+	"math"
 
 	"github.com/gontainer/gontainer-helpers/v3/exporter"
 	"github.com/gontainer/gontainer/internal/pkg/consts"
@@ -39,7 +40,7 @@ func (NonStringPrimitiveResolver) ResolveArg(i any) (e ArgExpr, _ error) {
 	// Method NonStringPrimitiveResolver{}.Supports checks whether the underlying type of `i` is primitive.
 	// exporter.MustExport never panics for primitive types, so there is no reason to handle an error.
 	return ArgExpr{
-		Code:              fmt.Sprintf(consts.TplDependencyValue, exporter.MustExport(i)),
+		Code:              fmt.Sprintf(consts.TplDependencyValue, exportPrimitive(i)),
 		Raw:               i,
 		DependsOnParams:   nil,
 		DependsOnServices: nil,
@@ -50,4 +51,21 @@ func (NonStringPrimitiveResolver) ResolveArg(i any) (e ArgExpr, _ error) {
 func (NonStringPrimitiveResolver) Supports(i any) bool {
 	_, ok := i.(string)
 	return !ok && types.IsPrimitive(i)
+}
+
+// exportPrimitive returns a GO expression for the given primitive value.
+func exportPrimitive(i any) string {
+	// infinities and NaN (YAML: .inf, -.inf, .nan) are not constants in GO,
+	// so they cannot be exported as literals, e.g. float64(+Inf) is not a valid expression
+	if f, ok := i.(float64); ok {
+		switch {
+		case math.IsNaN(f):
+			return "func() float64 { var zero float64; return zero / zero }()"
+		case math.IsInf(f, 1):
+			return "func() float64 { var zero float64; return 1 / zero }()"
+		case math.IsInf(f, -1):
+			return "func() float64 { var zero float64; return -1 / zero }()"
+		}
+	}
+	return exporter.MustExport(i)
 }
